@@ -138,6 +138,26 @@ EXTRA2 = {
  'C19': 'Also: column-name line and data columns built from one ordered key list; lower/upper detection-limit blocks use only their own names.',
  'C20': 'Also: both sweeps of pack2d use the same integer conversion; VAR1 and EXP handed to unpack are indexed alike; no function reads and fills a mutable default argument.',
 }
+# clauses added after the fourth held-out wave
+EXTRA4 = {
+ 'C01': 'eval gives borrowed dimension names only to results that carry none; the new length in the N-d branch of interpDimension is shape[axis of the dimension].',
+ 'C02': 'Companion dimensions of the string form are exactly D<digits> (10 sample names); the new zipped dimension is placed by the order of the variable dimensions; the fill-value lookup of copyVariable is not restricted to ncattrs().',
+ 'C03': 'Companion dimensions of reduce_dim are exactly D<digits>; convolve_dim applies np.convolve with the given weights.',
+ 'C04': 'The pieces handed to the concatenation are data reads, not variable objects; copyDimension(D, key=K) takes D from the dimension named K.',
+ 'C05': 'In-place writes on a view of a file that is the input on at least one path are reported.',
+ 'C06': 'Besides coordinate keys pncbo copies a variable only when the right operand lacks it; the parse of mask definitions keeps every argument (5 cases).',
+ 'C08': 'A day carry is never computed from a value already reduced modulo the day length; the cloud/rain size probe tries the layout the writer emits first.',
+ 'C10': 'updatetflag stores SDATE/STIME from the rebuilt TFLAG; adddims deletes every dimension only some FTYPE branch creates.',
+ 'C11': 'No arithmetic on a YYYYDDD-coded attribute in the new SDATE; the TSTEP store is controlled only by the selector and the number of retained times.',
+ 'C12': 'calendar and units are read from the time variable before the name is re-bound to bounds.',
+ 'C13': 'LAY, TSTEP and the reshape of the variable getter agree on the records per step; no generator-valued attribute is iterated by a method; __timerecords measures from (start_date, start_time).',
+ 'C15': 'Helpers called by a sniffer are neither memoised nor write module state; mutable default arguments in the selection code.',
+ 'C16': 'Every edge-taking path of the candidate loop ends in break; the request is not converted with a dtype taken from the coordinate; limits held in names are read after the reversal of a descending edge array.',
+ 'C17': 'The thickness factor of the mass weights comes from the source edges along the source axis; sigma = (p - top) / (p[0] - top) in both GEOS-Chem implementations; with coordkey given the old coordinate is self.variables[coordkey].',
+ 'C18': 'The per-block structure assertions cover every time step; the time blocks of a variable are iterated in file order.',
+ 'C19': 'A declared count len(<anything>) is compared with the block it announces; the scale / missing-code parsers accept what the writer emits.',
+ 'C20': 'Written pieces have width intervals: caller data cut to N is 0..N wide unless padded first.',
+}
 NA = {}
 
 CLAIMED.update({
@@ -167,6 +187,8 @@ def main():
             tech, note = tech + '; ' + EXTRA[pid][0], note + ' ' + EXTRA[pid][1]
         if pid in EXTRA2:
             note = note + ' ' + EXTRA2[pid]
+        if pid in EXTRA4:
+            note = note + ' ' + EXTRA4[pid]
         note = note + ' Generic baseline-relative rules over the anchored files (pncstatic/generic.py): unused parameters, read mutable defaults, collapsed element-wise choices, uncalled methods, one-shot iterators, module and class state, truthiness defaults of numeric options, broken swaps, un-adapted sibling statements. Clauses added wave by wave are listed in DESIGN section 4.'
         mod = importlib.import_module('pncstatic.rules.%s' % pid.lower())
         checks.append(dict(
